@@ -3,14 +3,15 @@
    FOREIGN KEY constraints, every public function of parsing/sqlite.py as the statements it issues, ADSORBATE_LIST / MATERIAL_LIST as
    state, with_connection as one transaction.  Dictionary model: Db/DbSpec.v.
    The per-operation refinement tables -> dictionary is PROVED for adsorbate / material upload (new and overwrite, with and without
-   auto-insert of property types), adsorbate / material deletion, isotherm deletion and the retrievals, under the well-formedness
+   auto-insert of property types), adsorbate / material deletion, property-type / isotherm-type upload, overwrite and deletion, isotherm
+   upload without auto-insert, isotherm deletion and the retrievals, under the well-formedness
    invariant of the tables (Db/DbInv.v: unique names / ids / type names, counters above the ids in use, every property row has its owner
    and type, every isotherm its material / adsorbate / type, every isotherm property / data row its isotherm), which EVERY operation
    preserves - so the refinement composes over arbitrary histories of these operations (history_refines_partial).
-   PARTIAL: for property-type uploads / deletions and isotherm uploads the refinement is evaluated inside Coq on every step of every
-   history of the run (Db/DbShow.v spec_verdict), not proved. *)
+   PARTIAL: isotherm uploads WITH auto-insert of the material / adsorbate read the per-process registries (refuted items below; their
+   steps are judged inside Coq at run time, Db/DbShow.v spec_verdict); the isotherm PROPERTY types have no table at all (refuted item). *)
 From Coq Require Import ZArith List Bool.
-From PG Require Import Db.DbModel Db.DbSpec Db.DbRefine Db.DbInv Db.DbRefine2.
+From PG Require Import Db.DbModel Db.DbSpec Db.DbRefine Db.DbInv Db.DbRefine2 Db.DbRefine3 Db.DbRefine4.
 Import ListNotations.
 Open Scope Z_scope.
 
@@ -126,6 +127,20 @@ Theorem entity_overwrite_refines_dictionary : forall e name ps a d r, wf d -> No
   | None => DbRefine2.oc_of (run_op (EntUp e name ps a true) d r) = OParsing /\ DbInv.db_after (run_op (EntUp e name ps a true) d r) = d end.
 Proof. exact ent_upload_overwrite_refines. Qed.
 Print Assumptions entity_overwrite_refines_dictionary.
+(* property types of adsorbates / materials and isotherm types (every type table the schema has): upload, overwrite, deletion *)
+Theorem type_upload_refines_dictionary : forall t ty u ds w d r, missing t = false ->
+  match s_type_upload t ty u ds w (abs d) with
+  | Some s' => DbRefine2.oc_of (run_op (TyUp t ty u ds w) d r) = OOk RUnit /\ abs (DbInv.db_after (run_op (TyUp t ty u ds w) d r)) = s'
+  | None => DbRefine2.oc_of (run_op (TyUp t ty u ds w) d r) = OParsing /\ DbInv.db_after (run_op (TyUp t ty u ds w) d r) = d end.
+Proof. exact type_upload_refines. Qed.
+Print Assumptions type_upload_refines_dictionary.
+(* a type still used by a property (an isotherm) cannot be deleted: "in use" in the tables = "in use" in the dictionary needs the invariant *)
+Theorem type_deletion_refines_dictionary : forall t ty d r, wf d -> missing t = false ->
+  match s_type_delete t ty (abs d) with
+  | Some s' => DbRefine2.oc_of (run_op (TyDel t ty) d r) = OOk RUnit /\ abs (DbInv.db_after (run_op (TyDel t ty) d r)) = s'
+  | None => DbRefine2.oc_of (run_op (TyDel t ty) d r) = OParsing /\ DbInv.db_after (run_op (TyDel t ty) d r) = d end.
+Proof. exact type_delete_refines. Qed.
+Print Assumptions type_deletion_refines_dictionary.
 (* one statement for the proved write operations: content afterwards, accepted / refused, and a refusal is a parsing error that changes nothing *)
 Theorem write_operation_refines_dictionary_partial : forall o d r, wf d -> refined_write o = true ->
   abs (DbInv.db_after (run_op o d r)) = snd (sstep store_real o (abs d))
@@ -133,14 +148,43 @@ Theorem write_operation_refines_dictionary_partial : forall o d r, wf d -> refin
   /\ (fst (sstep store_real o (abs d)) = false -> DbRefine2.oc_of (run_op o d r) = OParsing /\ DbInv.db_after (run_op o d r) = d).
 Proof. exact write_op_refines. Qed.
 Print Assumptions write_operation_refines_dictionary_partial.
-(* any history of entity uploads / overwrites / deletions, isotherm deletions and retrievals on a file, from any well-formed content and any
-   registries: the abstraction of the file is what the dictionary predicts step after step.  Missing: property-type operations, isotherm uploads *)
+(* any history of entity uploads / overwrites / deletions, type uploads / overwrites / deletions, isotherm deletions and retrievals on a file,
+   from any well-formed content and any registries: the abstraction of the file is what the dictionary predicts step after step.
+   Missing: isotherm uploads (and the table-less isotherm property types) *)
 Theorem history_refines_partial : forall l d r, wf d -> forallb covered l = true ->
   wf (run_file d r l) /\ abs (run_file d r l) = spec_file (abs d) l.
-Proof. exact DbRefine2.history_refines_partial. Qed.
+Proof. exact DbRefine3.history_refines_partial. Qed.
 Print Assumptions history_refines_partial.
 Example history_refines_hypotheses_satisfiable :
   forallb covered [EntUp EMat 30 [(20, [VNum 1; VNum 2]); (21, [VText 5])] true false; EntGet EMat; EntUp EMat 30 [(20, [VNum 3])] false true;
-                   EntDel EMat 30; IsoDel 7; IsoGet (mkC None None None None)] = true
+                   TyUp TMat 22 (VText 8) VNull false; TyDel TMat 22; EntDel EMat 30; IsoDel 7; IsoGet (mkC None None None None)] = true
   /\ wf empty_db.
-Proof. exact DbRefine2.history_refines_hypotheses_satisfiable. Qed.
+Proof. exact DbRefine3.history_refines_hypotheses_satisfiable. Qed.
+
+(* ---- isotherm upload without auto-insert (Db/DbRefine4.v); conv_iso = how an isotherm property comes back from the store (REAL affinity;
+   booleans as 'TRUE'/'FALSE' text read back as booleans); the temperature is a number *)
+Theorem isotherm_upload_refines_dictionary : forall x d r, wf d -> temp_plain (n_temp x) ->
+  match s_iso_upload conv_iso x false false (abs d) with
+  | Some s' => DbRefine2.oc_of (run_op (IsoUp x false false) d r) = OOk RUnit /\ abs (DbInv.db_after (run_op (IsoUp x false false) d r)) = s'
+  | None => DbRefine2.oc_of (run_op (IsoUp x false false) d r) = OParsing /\ DbInv.db_after (run_op (IsoUp x false false) d r) = d end.
+Proof. exact iso_upload_plain_refines. Qed.
+Print Assumptions isotherm_upload_refines_dictionary.
+(* every write operation except auto-inserting isotherm uploads and the table-less isotherm property types *)
+Theorem operation_refines_dictionary_partial : forall o d r, wf d -> refined_write o || plain_iso_upload o = true ->
+  abs (DbInv.db_after (run_op o d r)) = snd (dict_step o (abs d))
+  /\ accepted (DbRefine2.oc_of (run_op o d r)) = fst (dict_step o (abs d))
+  /\ (fst (dict_step o (abs d)) = false -> DbRefine2.oc_of (run_op o d r) = OParsing /\ DbInv.db_after (run_op o d r) = d).
+Proof. exact op_refines. Qed.
+Print Assumptions operation_refines_dictionary_partial.
+(* ARBITRARY histories of these operations and retrievals on a file, from any well-formed content, with any registries: what can be
+   retrieved (the abstraction of the tables) is what the dictionary predicts, step after step *)
+Theorem history_refines_all_but_autoinsert_partial : forall l d r, wf d -> forallb covered_all l = true ->
+  wf (run_file d r l) /\ abs (run_file d r l) = dict_file (abs d) l.
+Proof. exact history_refines_all. Qed.
+Print Assumptions history_refines_all_but_autoinsert_partial.
+Example history_refines_all_hypotheses_satisfiable :
+  forallb covered_all [TyUp TIso A_point VNull VNull false; EntUp EMat 30 [(20, [VNum 1; VNum 2])] true false; EntUp EAds 10 [] true false;
+                       IsoUp (mkIn 100 A_point 30 [] 10 [] (VNum 77) [(40, VBool true); (41, VText 9)] [(50, 51, 52)]) false false;
+                       IsoGet (mkC None None None None); IsoDel 100; EntDel EMat 30; TyDel TIso A_point] = true
+  /\ wf empty_db.
+Proof. exact DbRefine4.history_refines_all_hypotheses_satisfiable. Qed.
